@@ -192,6 +192,8 @@ def run(chk):
             wc = 3.0        # a hard cut-off far above the thermal scale (cut-off > 36 T: the guarded branch reaches the cut-off)
         alpha = rng.choice([0.05, 0.4])
         kind = rng.choice(["power", "power", "custom-sd", "custom-corr"])
+        if it == 2:
+            kind = "custom-corr"            # every run: a finite-memory custom correlation function (below)
         pw = oqupy.PowerLawSD(alpha=alpha, zeta=zeta, cutoff=wc, cutoff_type=ctype, temperature=T)
         if kind == "power":
             corr = pw
@@ -200,8 +202,11 @@ def run(chk):
         else:
             # an analytic correlation function (Hermitian: C(-t) = conj C(t)); cheap to evaluate, so that the library's own
             # double quadrature over the callable stays fast
-            ca, cb, cw = rng.choice([0.1, 0.3]), rng.choice([0.5, 2.0]), rng.choice([0.0, 1.5, 4.0])
+            ca, cb, cw = rng.choice([0.1, 0.3]), rng.choice([0.5, 2.0]), rng.choice([0.0, 1.5, 4.0, np.pi])
             cfun = lambda t, ca=ca, cb=cb, cw=cw: ca * np.exp(-cb * t * t) * np.exp(-1j * cw * t)
+            if it % 3 == 2:
+                # a finite-memory correlation function: complex up to t = 0.8 and exactly zero beyond (real at any single probe time >= 0.8)
+                cfun = lambda t, ca=ca, cw=cw: (ca * (1 - abs(t) / 0.8) ** 2 * np.exp(-1j * (cw + 1.0) * t)) if abs(t) < 0.8 else 0.0 * 1j
             corr = oqupy.CustomCorrelations(cfun)
         dt = rng.choice([0.05, 0.2])
         info = {"kind": kind, "zeta": zeta, "T": T, "cutoff_type": ctype, "dt": dt}
